@@ -83,6 +83,20 @@ def FlagsOK (fl : Flags) : Prop := fl.any = true → fl.loc = true
 def OriginInjective (g : Graph ν ω) : Prop :=
   ∀ a ∈ g, ∀ b ∈ g, a.origin = b.origin → a.origin ≠ none → a.name = b.name
 
+/-- Origins are canonical: two origins of the graph that denote the same real file (`real` =
+`os.path.realpath`, computed by the harness, never by rattr) are the same origin. This is what
+`python_path.resolve()` in `find_module_in_path` is for; it FAILS when a file is reached through a
+symlink below a search dir (`C12_cex_symlink_below_search_dir`). -/
+def OriginsCanonical {ρ : Type} (g : Graph ν ω) (real : ω → ρ) : Prop :=
+  ∀ a ∈ g, ∀ b ∈ g, ∀ oa ob, a.origin = some oa → b.origin = some ob → real oa = real ob → oa = ob
+
+/-- Executable form of `OriginsCanonical` (the two are equivalent: `originsCanonicalB_iff`). -/
+def originsCanonicalB {ρ : Type} [DecidableEq ρ] (g : Graph ν ω) (real : ω → ρ) : Bool :=
+  g.all fun a => g.all fun b =>
+    match a.origin, b.origin with
+    | some oa, some ob => !(decide (real oa = real ob)) || decide (oa = ob)
+    | _, _ => true
+
 /-- Every module whose name matches an exclusion pattern is stopped by the ladder: it is blacklisted
 by `is_in_import_blacklist`, or it is a stdlib module and stdlib modules are not followed. -/
 def ExclusionHonoured (g : Graph ν ω) (fl : Flags) : Prop :=
